@@ -63,7 +63,11 @@ def check_case(ctx, case):
         ctx.count("big_tier")
     if has_tie:
         ctx.count("pairwise_tie")
-    out = observe(PairwiseComparisonGraph, prof)
+    # the optional ballot_length (ballots at least that long are not filled) never changes a margin
+    L = case.get("ballot_length")
+    out = observe(PairwiseComparisonGraph, prof) if L is None else observe(PairwiseComparisonGraph, prof, ballot_length=L)
+    if L is not None:
+        ctx.count("graphs_with_ballot_length")
     if not out.ok:
         ctx.fail(f"PairwiseComparisonGraph raised {out.etype}", case, {"msg": str(out.exc)[:200]})
         return
@@ -199,7 +203,10 @@ def run(ctx):
         if ctx.expired():
             break
         spec, m = gen_profile(ctx.rnd, maxn)
-        ctx.guard("check", check_case, ctx, {"profile": spec, "m": m})
+        case = {"profile": spec, "m": m}
+        if ctx.rnd.random() < 0.3:
+            case["ballot_length"] = ctx.rnd.randint(1, len(spec["cands"]) + 1)
+        ctx.guard("check", check_case, ctx, case)
 
 
 def replay(ctx, case):
